@@ -28,30 +28,15 @@
  * left after the last record was removed; vg_n3 = its arbitrary capacity in records).
  * MEMREC_PRE is the "requires" rendering (is_fresh allocates the table in an enforcing unit and is
  * checked at a replaced call), MEMREC_POST the "ensures" rendering of the same predicate. */
-#ifndef MEMREC_TYPED
 #define MEMREC_PRE(m) \
     (__CPROVER_rw_ok((m), sizeof(spifmem_memrec_t)) && (m)->cnt <= MEMREC_CAP && vg_n3 <= MEMREC_CAP && \
      (((m)->cnt == 0 && (m)->ptrs == NULL) || \
       __CPROVER_is_fresh((m)->ptrs, MEMREC_RSZ * ((m)->cnt ? (m)->cnt : vg_n3))))
 /* bounded units fix the record count to a constant */
-# ifdef MEMREC_HARNESS_CNT
-#  define MEMREC_HARNESS_BUILD(m) do { (m)->cnt = MEMREC_HARNESS_CNT; } while (0)
-# else
-#  define MEMREC_HARNESS_BUILD(m) do { } while (0)
-# endif
+#ifdef MEMREC_HARNESS_CNT
+# define MEMREC_HARNESS_BUILD(m) do { (m)->cnt = MEMREC_HARNESS_CNT; } while (0)
 #else
-/* table built by the harness as a TYPED array object (units with the memmove of memrec_rem_var);
- * MEMREC_HARNESS_CNT: the record count, arbitrary unless a bounded unit fixes it to a constant */
-#ifndef MEMREC_HARNESS_CNT
-# define MEMREC_HARNESS_CNT nondet_size_t()
-#endif
-#define MEMREC_PRE(m) (__CPROVER_rw_ok((m), sizeof(spifmem_memrec_t)) && MEMREC_POST(m))
-#define MEMREC_HARNESS_BUILD(m) do { \
-    (m)->cnt = MEMREC_HARNESS_CNT; __CPROVER_assume((m)->cnt <= MEMREC_CAP); \
-    if ((m)->cnt == 0 && nondet_bool()) (m)->ptrs = NULL; \
-    else { size_t vg_cap_ = (m)->cnt; if (vg_cap_ == 0) { vg_cap_ = nondet_size_t(); __CPROVER_assume(vg_cap_ <= MEMREC_CAP); } \
-           (m)->ptrs = __CPROVER_allocate(sizeof(spifmem_ptr_t) * vg_cap_, 0); } \
-    vg_mh_tab = (m)->ptrs; } while (0)
+# define MEMREC_HARNESS_BUILD(m) do { } while (0)
 #endif
 #define MEMREC_POST(m) \
     ((m)->cnt <= MEMREC_CAP && \
